@@ -234,17 +234,21 @@ func analyzeFilter(r *an.Run, key string, fs filterSite, pos token.Pos) {
 
 func c17FilterOnly(r *an.Run) {
 	nList := 0
-	for _, spec := range [][2]string{{mainP, "cleanupFilePos"}, {patchP, "cleanupFilePos"}} {
-		f := fn(r, spec[0], spec[1])
-		if f == nil {
-			continue
-		}
+	cleanups := cleanupFuncs(r)
+	if len(cleanups) == 1 {
+		nList++ // CLI and library share the filter
+	}
+	for _, cf := range cleanups {
+		f := cf
 		r.Rule("R2-comment-lists-only-shrink")
 		var listStore *ssa.Store
-		for _, in := range an.StoresIn(f) {
-			if st, ok := in.(*ssa.Store); ok {
-				if fa, ok := st.Addr.(*ssa.FieldAddr); ok && an.IsNamed(fa.X.Type(), "go/ast", "CommentGroup") && fieldNameOf(fa) == "List" {
-					listStore = st
+		for _, g := range helperGroup(cf, 2) {
+			for _, in := range an.StoresIn(g) {
+				if st, ok := in.(*ssa.Store); ok {
+					if fa, ok := st.Addr.(*ssa.FieldAddr); ok && an.IsNamed(fa.X.Type(), "go/ast", "CommentGroup") && fieldNameOf(fa) == "List" {
+						listStore = st
+						f = g
+					}
 				}
 			}
 		}
@@ -377,7 +381,7 @@ func c17FilterOnly(r *an.Run) {
 		}
 		for _, in := range an.StoresIn(f) {
 			if st, ok := in.(*ssa.Store); ok {
-				if fa, ok := st.Addr.(*ssa.FieldAddr); ok && an.IsNamed(fa.X.Type(), "go/ast", "CommentGroup") && !strings.HasSuffix(short(f), "cleanupFilePos") {
+				if fa, ok := st.Addr.(*ssa.FieldAddr); ok && an.IsNamed(fa.X.Type(), "go/ast", "CommentGroup") && !inCleanup(r, f) {
 					r.Fail(short(f)+"|CommentGroup."+fieldNameOf(fa), st.Pos(), "%s writes a comment group in place", short(f))
 				}
 				if fa, ok := st.Addr.(*ssa.FieldAddr); ok && an.IsNamed(fa.X.Type(), "go/ast", "Comment") {
